@@ -24,6 +24,21 @@ CHECKS = {
             "Batches of expressions sharing sub-terms are simplified alone, twice, and through shared sparse/dense simplifiers in random orders; returned references must coincide; termination is bounded progress: <= 10^6 rewrite events per call. Held on the batches executed.",
             "Termination is restated as a step bound; no normal form is demanded.",
             "DESIGN.md §4 C13"),
+    "C07": ("exploration",
+            "runtime differential monitor: Simulator::get after every operation of generated histories vs reference simulator",
+            "Every value read from patronus::sim::Interpreter after each init/set/step/snapshot/restore operation of generated histories on generated systems is compared with the reference simulator R3 (built on the big-integer evaluator). Held on the histories executed.",
+            "Inputs are set again after restore (interface/implementation differ on whether snapshots include inputs); widths <= 34 bits, no div/rem, no array equality (evaluator limits belong to C06).",
+            "DESIGN.md §4 C07"),
+    "C11": ("exploration",
+            "runtime differential monitor: system before/after simplify_expressions and replace_anonymous_inputs_with_zero, function-by-function evaluation + lock-step reference simulation; rewrite steps via hook H2",
+            "Each pass execution on generated systems and on the 116 corpus designs is judged function by function by the reference evaluator (exhaustively for the <=14 symbol bits of generated systems), by structural checks (inputs/states kept, removed inputs gone everywhere) and by a 20-step lock-step run in the reference simulator. Held on the systems executed.",
+            "Equivalence by evaluation; corpus designs judged on sampled valuations only.",
+            "DESIGN.md §4 C11"),
+    "C17": ("exploration",
+            "runtime monitor: reported cone vs independent dependency reachability + perturbation pairs in the reference simulator",
+            "Every cone computed by the three analysis variants on generated systems and corpus designs is checked for tightness against an independent syntactic reachability and for sufficiency by pairs of reference executions that agree on the cone and differ elsewhere. Held on the roots and pairs executed.",
+            "Sufficiency is sampled (32 pairs per root and variant), not proven.",
+            "DESIGN.md §4 C17"),
 }
 
 NOT_YET = {}
